@@ -3,6 +3,9 @@
 // sock_addr_*), json (json_find on generated objects; expected answer by construction).
 // DESIGN.md §4 C17.
 #include "pbt.h"
+#include <cstdarg>
+#include <unistd.h>
+#include <sys/mman.h>
 #include "shim.h"
 
 #include <arpa/inet.h>
@@ -1247,6 +1250,74 @@ static void self_test() {
 // Flags given in ASAN_OPTIONS by ./check are parsed after these defaults and keep precedence.
 extern "C" const char *__asan_default_options() { return "quarantine_size_mb=16:malloc_context_size=8"; }
 
+static std::string fmt(const char *f, ...) {
+  char b[600];
+  va_list ap;
+  va_start(ap, f);
+  vsnprintf(b, sizeof b, f, ap);
+  va_end(ap);
+  return b;
+}
+// ------------------------------------------------------------------ documents larger than 2 / 4 GiB
+// Case: bigjson gap_mib lit keysel.  The document is {"a":<literal>,<gap of white space>"b":1} where the gap is 2^31 or 2^32 bytes plus a
+// bit: a 2 MiB memfd full of spaces mapped again and again between a real first and a real last page, so that gigabytes of document
+// cost 2 MiB of memory.  Looking up "b" must return the position of its value; looking up "c" must return the end.
+static Outcome run_bigjson(const Case &c) {
+  Outcome o;
+  if (c.empty() || c[0].a.size() < 3) return o;
+  const size_t WIN = (size_t)2 << 20;
+  static const char *LIT[] = {"true", "false", "null", "12", "\"s\"", "[]", "{}"};
+  int extra = (int)(((c[0].a[1] % 4) + 4) % 4);  // which of the four non-keyword values is tried besides true / false / null
+  std::string tail = "\"b\":1}";
+  // two document sizes per case: 2 GiB and 4 GiB (+ 0..1 windows), each looked at with the three keyword literals and one other value
+  for (int pass = 0; pass < 2 && o.ok; pass++) {
+    size_t gapwin = (pass == 0 ? 1024 : 2048) + (size_t)(c[0].a[0] & 1);
+    size_t total = WIN + gapwin * WIN + WIN;
+    uint8_t *base = (uint8_t *)mmap(nullptr, total, PROT_NONE, MAP_PRIVATE | MAP_ANONYMOUS | MAP_NORESERVE, -1, 0);
+    int mfd = memfd_create("c17-spaces", 0);
+    if (base == MAP_FAILED || mfd < 0 || ftruncate(mfd, (off_t)WIN) != 0) {
+      fprintf(stderr, "HARNESS-ERROR: cannot set up the big mapping\n");
+      exit(3);
+    }
+    uint8_t *w0 = (uint8_t *)mmap(base, WIN, PROT_READ | PROT_WRITE, MAP_PRIVATE | MAP_ANONYMOUS | MAP_FIXED, -1, 0);
+    uint8_t *sp = (uint8_t *)mmap(base + WIN, WIN, PROT_READ | PROT_WRITE, MAP_SHARED | MAP_FIXED, mfd, 0);
+    memset(sp, ' ', WIN);
+    for (size_t i = 1; i < gapwin; i++) mmap(base + WIN + i * WIN, WIN, PROT_READ, MAP_SHARED | MAP_FIXED, mfd, 0);
+    uint8_t *wl = (uint8_t *)mmap(base + WIN + gapwin * WIN, WIN, PROT_READ | PROT_WRITE, MAP_PRIVATE | MAP_ANONYMOUS | MAP_FIXED, -1, 0);
+    memset(wl, ' ', WIN);
+    memcpy(wl, tail.data(), tail.size());
+    uint8_t *end = wl + tail.size();
+    for (int li = 0; li < 4 && o.ok; li++) {
+      const char *lit = LIT[li < 3 ? li : 3 + extra];
+      std::string head = std::string("{\"a\":") + lit + ",";
+      memset(w0, ' ', WIN);
+      uint8_t *buf = w0 + WIN - head.size();  // the document starts near the end of the first window
+      memcpy(buf, head.data(), head.size());
+      size_t doclen = (size_t)(end - buf);
+      const uint8_t *vb = shim_json_find(buf, end, "b");
+      if (vb != wl + 4)
+        o.fail("json-big", fmt("document of %zu bytes ({\"a\":%s, <%zu MiB of spaces> \"b\":1}): lookup of \"b\" returned offset %zd, expected %zu", doclen, lit, gapwin * 2,
+                               vb ? (ssize_t)(vb - buf) : (ssize_t)-1, (size_t)(wl + 4 - buf)));
+      else if (li == 0) {
+        if (shim_json_find(buf, end, "c") != end) o.fail("json-big", fmt("document of %zu bytes: lookup of an absent key did not return the end", doclen));
+        else if (shim_json_find(buf, end, "a") != buf + 5) o.fail("json-big", fmt("document of %zu bytes: lookup of \"a\" returned a wrong position", doclen));
+      }
+    }
+    munmap(base, total);
+    close(mfd);
+    o.cls(pass ? "document>=4GiB" : "document>=2GiB");
+  }
+  o.nontrivial = true;
+  return o;
+}
+static rc::Gen<Case> gen_bigjson(int) {
+  return rc::gen::noShrink(rc::gen::exec([]() {
+    Case c;
+    c.push_back(Op("bigjson", {*range<int>(0, 1), *range<int>(0, 3), 0}));
+    return c;
+  }));
+}
+
 int main(int argc, char **argv) {
   self_test();
   std::vector<Sub> subs;
@@ -1282,5 +1353,9 @@ int main(int argc, char **argv) {
                   "has no \\u escape, else end (by construction; renderer guarded by a strict RFC 8259 checker). Non-trivial: match not in the first member, or "
                   "after a nested container with >= 2 entries, or duplicate / prefix-related / \\u-related names",
                   gen_json, run_json});
+  subs.push_back({"bigjson",
+                  "a JSON object of 2 or 4 GiB (+ 2 MiB): {\"a\":<true|false|null|12|\"s\"|[]|{}>, <gap of spaces>, \"b\":1}; the gap is one 2 MiB memfd mapped 1024..2049 times. Oracle: json_find "
+                  "returns the exact position of the value of \"b\" and of \"a\", and the end for an absent key. Every case non-trivial",
+                  gen_bigjson, run_bigjson});
   return pbt_main(argc, argv, subs);
 }
